@@ -21,6 +21,25 @@ ENTRY_PREFIXES = (
 IMD = "in-memory decode of bytes already read (io::Error is only the BinarySerializable signature), search side — no storage operation"
 # (function, callee, fate) -> (count, reason); every entry was read.
 FATE_TABLE = {
+    # --- fate 'err-arm-continues': the Result is matched, but the Err arm reaches a non-error exit
+    ("tantivy::directory::managed_directory::ManagedDirectory::garbage_collect", "<tantivy::directory::managed_directory::ManagedDirectory as tantivy::directory::directory::Directory>::delete", "err-arm-continues"):
+        (1, "GC: FileDoesNotExist counts as deleted, an IoError keeps the file managed and it is retried by the next GC (logged)"),
+    ("tantivy::directory::managed_directory::ManagedDirectory::wrap", "tantivy::directory::directory::Directory::atomic_read", "err-arm-continues"):
+        (1, "FileDoesNotExist(.managed.json) = a fresh directory: start with an empty managed set; every other error is returned"),
+    ("tantivy::directory::mmap_directory::file_watcher::FileWatcher::spawn::{closure#0}", "tantivy::directory::mmap_directory::file_watcher::FileWatcher::compute_checksum", "err-arm-continues"):
+        (1, "watcher thread: meta.json momentarily unreadable, retried at the next poll; no caller to report to"),
+    ("tantivy::directory::watch_event_router::WatchCallbackList::broadcast", "std::thread::builder::Builder::spawn", "err-arm-continues"):
+        (1, "thread spawn failure is logged; the sender is dropped with the closure, so the returned future resolves to its error message"),
+    ("tantivy::index::segment_reader::SegmentReader::open_with_custom_alive_set", "tantivy::index::segment::Segment::open_read", "err-arm-continues"):
+        (1, "optional component: a missing positions file means no positions (CompositeFile::empty); every other error is returned"),
+    ("tantivy::indexer::index_writer::IndexWriter::<D>::rollback", "tantivy::indexer::index_writer::IndexWriter::<D>::operation_receiver", "err-arm-continues"):
+        (1, "the receiver is only drained when it exists; Err means the writer was killed and there is nothing to drain"),
+    ("tantivy::indexer::index_writer::IndexWriter::<D>::wait_merging_threads", "tantivy::indexer::segment_updater::SegmentUpdater::wait_merging_thread", "err-arm-continues"):
+        (1, "logged and then returned: `result` is the function's return value"),
+    ("tantivy::indexer::segment_updater::SegmentUpdater::start_merge", "tantivy::indexer::segment_manager::SegmentManager::start_merge", "err-arm-continues"):
+        (1, "logged, then returned to the caller as an already-failed FutureResult (`return err.into()`)"),
+    ("tantivy::reader::IndexReaderBuilder::try_into::{closure#0}", "tantivy::reader::InnerIndexReader::reload", "err-arm-continues"):
+        (1, "OnCommitWithDelay callback on the watcher thread: a failed background reload is logged, the previous searcher stays published; no caller to report to"),
     ("tantivy::indexer::segment_updater::SegmentUpdater::schedule_commit::{closure#0}", "tantivy::indexer::segment_updater::garbage_collect_files", "discarded"):
         (1, "documented: a GC failure after a successful commit is ignored without side effects (undeleted files stay managed and are retried)"),
     ("tantivy::indexer::segment_updater::SegmentUpdater::end_merge::{closure#1}", "tantivy::indexer::segment_updater::garbage_collect_files", "discarded"):
@@ -113,6 +132,22 @@ def r1(rep, prog):
             k = (body.id, callee, f)
             seen[k] += 1
             sites[k].append(site(body, b))
+    # a Result that IS inspected by `match` / `if let`, but whose Err arm can reach a non-error exit: the
+    # error is logged or replaced by a default and the operation goes on ("log and continue")
+    from ..model import try_continuations
+    for body, b, t, et, fates in res:
+        if "checked" not in fates:
+            continue
+        cont, brk, brs = try_continuations(body, b)
+        eb = body.error_blocks()
+        starts = tuple(x for x in brk if x not in eb)
+        if not starts:
+            continue
+        if must_pass(body, [Ev(x, "enter") for x in eb], exits="all", starts=starts):
+            k = (body.id, t.get("res") or t.get("f"), "err-arm-continues")
+            seen[k] += 1
+            sites[k].append(site(body, b))
+            fc["err-arm-continues"] += 1
     for k, n in sorted(seen.items()):
         fid, callee, fate = k
         key = "%s: %s of %s" % (short(fid), fate, short(callee))
@@ -121,7 +156,8 @@ def r1(rep, prog):
             rep.check(n <= cnt, R, key, "permitted (%d site(s)): %s" % (n, why),
                       "%d site(s) where the table permits %d: a new %s of a storage Result in `%s`" % (n, cnt, fate, fid), site=sites[k][0])
         else:
-            rep.fail(R, key, "the Result of `%s` (storage error) is %s instead of being propagated" % (callee, fate.replace(":", " by ")), site=sites[k][0])
+            how = "inspected, but its Err arm goes on to a non-error exit (the error is only logged or replaced by a default and the operation continues)" if fate == "err-arm-continues" else fate.replace(":", " by ")
+            rep.fail(R, key, "the Result of `%s` (storage error) is %s instead of being propagated" % (callee, how), site=sites[k][0])
     for k in FATE_TABLE:
         if k in ONLY_IN and prog.config not in ONLY_IN[k]:
             continue
